@@ -76,6 +76,19 @@ def cases(rng, tier):
     for _ in range(60 if not th else 600):
         m = rng.randrange(1, 4); n = m + rng.randrange(0, 3)
         add('word-boundary-entries', [[rng.choice(edge) if rng.random() < 0.5 else rng.randrange(-3, 4) for _ in range(m)] for _ in range(n)])
+    # long inputs: 16..40 rows, 2..4 columns, entries in {-1,0,1} (k = n - rank is large; any pre-sorting or blocking of the rows
+    # must be reflected in U)
+    for _ in range(30 if not th else 300):
+        m = rng.randrange(2, 5); n = rng.randrange(16, 41)
+        add('long-narrow', [[rng.randrange(-1, 2) for _ in range(m)] for _ in range(n)])
+    for n in (16, 20, 24):
+        pat = [[1, 1, -1], [0, 1, 0], [1, -1, 1], [0, 0, 1], [-1, 1, 1], [1, 0, 0], [1, 1, 0]]
+        add('long-narrow', [pat[i % 7] for i in range(n)])
+    for _ in range(3 if not th else 20):
+        n = rng.choice([16, 18, 20])
+        a = [[rng.randrange(-1, 2) for _ in range(n)] for _ in range(n)]
+        a[rng.randrange(n)] = list(a[0])
+        add('square-16+', a)
     # separate ops on their own
     for tag, a in H.structured_mats(rng, 150 if not th else 1500, 6, [2, 8, 64]):
         out.append(Case('hnf_kernel', line('hnf_kernel', a), oracle=H.o_kernel(a), always_oracle=True, nontrivial=has_kernel(a), tag='kernel-' + tag))
